@@ -32,7 +32,8 @@ class Ctx:
     @property
     def mir(self):
         if self._mir is None:
-            self._mir = Mir(self.facts_dir, factsmod.CRATES)
+            self.ast  # (detects renames)
+            self._mir = Mir(self.facts_dir, factsmod.CRATES, getattr(self, "_renames", None))
         return self._mir
 
     @property
@@ -43,6 +44,22 @@ class Ctx:
                 self._ast.known = {c: set(v) for c, v in self.ref("fn_names.json").items()}
             except (OSError, ValueError):
                 self._ast.known = None
+            # private fields / functions renamed since the review are read under their reviewed names (lib/renames.py)
+            self._renames = {}
+            try:
+                from . import renames
+                refn = self.ref("names.json")
+                for c in factsmod.CRATES:
+                    fr, fnr = renames.detect(self._ast.crates[c], refn.get(c, {}))
+                    if fr or fnr:
+                        renames.apply_ast(self._ast.crates[c], fr, fnr)
+                        self._renames[c] = (fr, fnr)
+                        self.notes.append("%s: renamed since the review and read under the reviewed name: %s" % (c, ", ".join("%s (was %s)" % kv for kv in list(fr.items()) + list(fnr.items()))))
+                if self._renames:
+                    from . import flat as _fl
+                    _fl.set_ret_family(self._ast.crates.values())
+            except (OSError, ValueError):
+                pass
         return self._ast
 
     def tables(self, which):
